@@ -55,48 +55,84 @@ def table(ctx, rep):
 
 
 def loop_rules(ctx, rep, impl):
+    """multi-site formulation (private helpers are inlined): any number of gate calls, flag tests, decode and return sites"""
     is_async = impl == "tokio"
     b = net.body(ctx, rep, "R9.2", impl, "read")
     if b is None:
         return
     G = b.calls_to(r"Packet::maybe_verify_version$")
-    rep.check("R9.2", "%s:anchor" % impl, len(G) == 1, "%s read: expected exactly one gate call (found %d)" % (impl, len(G)), b.loc(), sample={"impl": impl, "sites": len(G)})
-    if len(G) != 1:
-        return
-    gbb, gt = G[0]
-    go = b.origin(gt["args"][0])
-    rep.check("R9.2", "%s:gate-of-decoded" % impl, any(c[1].endswith("Codec::decode") for c in origin_calls(go)),
-              "the gate must inspect the packet just decoded (origin %s)" % fmt_origin(go), b.loc(gt["line"]))
-    # enabled test: switch on self.verify_version
-    sws = b.switch_on(lambda o: is_self_field(o, "verify_version"))
-    rep.check("R9.2", "%s:flag-test" % impl, len(sws) == 1, "expected one test of self.verify_version (found %d)" % len(sws), b.loc())
-    if len(sws) != 1:
-        return
-    sbb, targets, otherwise, _o = sws[0]
-    off_t = targets.get(0)
-    on_t = otherwise if off_t is not None else targets.get(1)
-    rep.check("R9.2", "%s:only-when-enabled" % impl, gbb not in b.reach(0, avoid_edges={(sbb, on_t)}),
-              "the gate is reachable with verification disabled", b.loc(gt["line"]))
+    DEC = b.calls_to(r"Codec::decode$")
     oks = net.packet_ok_returns(b)
-    rep.check("R9.2", "%s:always-when-enabled" % impl, bool(oks) and not (set(oks) & b.reach(on_t, avoid_blocks={gbb})),
-              "with verification enabled a packet can be returned without passing the gate", b.loc(gt["line"]))
-    tr = b.try_of_call(gbb)
-    rep.check("R9.2", "%s:error-propagated" % impl, tr is not None and "residual" in b.ret_kinds(tr[3]) and b.ret_kinds(tr[3]) <= {"residual"},
-              "the gate's Err must be returned with `?`", b.loc(gt["line"]))
-    # the disabled edge reaches the return without any packet-dependent error exit other than the pong write
-    dec = b.calls_to(r"Codec::decode$")
-    err_exits = []
+    F = b.switch_on(lambda o: is_self_field(o, "verify_version"))
+    rep.check("R9.2", "%s:anchor" % impl, len(G) >= 1 and len(F) >= 1 and len(DEC) >= 1 and len(oks) >= 1,
+              "%s read: expected gate call(s), test(s) of self.verify_version, decode and `return Ok(packet)` sites (found %d / %d / %d / %d)" % (impl, len(G), len(F), len(DEC), len(oks)), b.loc(),
+              sample={"impl": impl, "gate_sites": len(G), "flag_tests": len(F), "decode_sites": len(DEC), "packet_returns": len(oks)})
+    if not (G and F and DEC and oks):
+        return
+    on_edges, off_edges = set(), set()
+    for sbb, targets, otherwise, _o in F:
+        off_t = targets.get(0)
+        on_t = otherwise if off_t is not None else targets.get(1)
+        if off_t is None:
+            off_t = otherwise
+        on_edges.add((sbb, on_t))
+        off_edges.add((sbb, off_t))
+    gblocks = {bb for bb, _t in G}
+    dblocks = {bb for bb, _t in DEC}
+    for n, (gbb, gt) in enumerate(G):
+        go = b.origin(gt["args"][0])
+        rep.check("R9.2", "%s:gate-of-decoded:%d" % (impl, n), b.may_mention(go, r"Codec::decode$"),
+                  "the gate must inspect the packet just decoded (origin %s)" % fmt_origin(go), b.loc(gt["line"]))
+        rep.check("R9.2", "%s:only-when-enabled:%d" % (impl, n), gbb not in b.reach(0, avoid_edges=on_edges),
+                  "the gate is reachable with verification disabled", b.loc(gt["line"]))
+        rep.check("R9.2", "%s:error-propagated:%d" % (impl, n), b.error_returned(gbb),
+                  "the gate's Err must be returned with `?`", b.loc(gt["line"]))
+    # with verification enabled no decoded packet reaches the caller without passing a gate
+    for n, (dbb, dt) in enumerate(DEC):
+        esc = b.reach_v(avoid_blocks=gblocks, avoid_edges=off_edges, via=dbb, avoid_after=dblocks)
+        rep.check("R9.2", "%s:always-when-enabled:%d" % (impl, n), not (set(oks) & esc),
+                  "with verification enabled a packet can be returned without passing the gate", b.loc(dt["line"]), sample={"impl": impl, "decode_block": dbb})
     plumbing = ("Try::branch", "Future::poll", "new_unchecked", "into_future", "get_context", "{closure#0}")
+
+    def direct_sources(o, seen, depth=0):
+        """the call(s) whose error value this residual carries (looking through `?`/await plumbing and phis)"""
+        if depth > 25 or not isinstance(o, tuple):
+            return set()
+        k = o[0]
+        if k == "call":
+            if any(o[1].endswith(p_) or (o[2] or "").endswith(p_) for p_ in plumbing):
+                out = set()
+                for a in o[3][:1]:
+                    out |= direct_sources(a, seen, depth + 1)
+                return out
+            if o[1].endswith("FromResidual::from_residual"):
+                # a helper's own `?`: look at what it carried
+                out = set()
+                for a in o[3][:1]:
+                    out |= direct_sources(a, seen, depth + 1)
+                return out
+            return {o[1]}
+        if k == "phi":
+            if o[1] in seen:
+                return set()
+            seen.add(o[1])
+            out = set()
+            for alt in b.phi_alternatives(o[1]):
+                out |= direct_sources(alt, seen, depth + 1)
+            return out
+        if k in ("field", "downcast", "ref", "deref", "cast"):
+            return direct_sources(o[4] if k == "cast" else o[1], seen, depth + 1)
+        if k == "agg":
+            out = set()
+            for a in o[2]:
+                out |= direct_sources(a, seen, depth + 1)
+            return out
+        return set()
+    err_exits = []
     for bb, t in b.calls_to(r"FromResidual::from_residual$"):
-        o = b.origin(t["args"][0])
-        src = None
-        for c in origin_calls(o):      # pre-order: outermost first
-            if not any(c[1].endswith(p) or (c[2] or "").endswith(p) for p in plumbing):
-                src = c[1]
-                break
-        err_exits.append((bb, src))
+        srcs = direct_sources(b.origin(t["args"][0]), set())
+        err_exits.append((bb, sorted(srcs)))
     allowed = ("Codec::decode", "Packet::maybe_verify_version", "framed::Framed::write", "framed::Framed::read_buf", "tokio::time::timeout::timeout")
-    bad = [(bb, s) for bb, s in err_exits if not (s and any(s.endswith(a) for a in allowed))]
+    bad = [(bb, s) for bb, s in err_exits if not (s and all(any(x.endswith(a) for a in allowed) for x in s))]
     rep.check("R9.2", "%s:no-other-rejection" % impl, not bad, "read has error exits that do not come from decode, the gate, the reply write or the transport read: %s" % bad, b.loc(),
               sample={"impl": impl, "error_exits": [s for _b, s in err_exits]})
-    # the builder forwards its flag
